@@ -381,6 +381,41 @@ class HMap:
         return vals[0]
 
 
+class HSeq:
+    """list of strings of symbolic length: (n, z3 Array Int -> String)."""
+
+    def __init__(self, n, arr):
+        self.n = n
+        self.arr = arr
+
+    def copy(self):
+        return HSeq(self.n, self.arr)
+
+    @staticmethod
+    def from_list(items):
+        arr = z3.K(z3.IntSort(), z3.StringVal(""))
+        for i, x in enumerate(items):
+            arr = z3.Store(arr, z3.IntVal(i), _zstr_val(x))
+        return HSeq(z3.IntVal(len(items)), arr)
+
+
+def _zstr_val(v):
+    if isinstance(v, str):
+        return z3.StringVal(v)
+    if isinstance(v, SOpaque) and v.kind == "str":
+        return v.t
+    raise EngineUnsupported(f"string value expected, got {v!r}")
+
+
+def hmap_from_dict(d):
+    m = HMap.empty()
+    for k, v in d.items():
+        if not isinstance(k, int):
+            raise EngineUnsupported("dict with non-int keys as symbolic map")
+        m.store(z3.IntVal(k), v)
+    return m
+
+
 class AttrEntry:
     """One (base, arity) slot of a message's dynamic attribute store."""
 
